@@ -32,6 +32,10 @@ ENGINES = {
                 ("sim/core/worker.cpp", ASAN), ("sim/core/ledger.cpp", ASAN)],
         "link": ASAN,
     },
+    "threadsim": {
+        "tus": [("sim/threadsim/work.cpp", TSAN + ["-fsanitize-coverage=trace-pc-guard"]), ("sim/threadsim/sched.cpp", []), ("sim/core/worker.cpp", TSAN)],
+        "link": TSAN + ["-pthread", "-Wl,--wrap=__cxa_guard_acquire", "-Wl,--wrap=__cxa_guard_release", "-Wl,--wrap=__cxa_guard_abort"],
+    },
     "patchsim": {
         "tus": [("sim/patchsim/main.cpp", ASAN), ("sim/core/worker.cpp", ASAN)],
         "link": ASAN,
@@ -120,7 +124,7 @@ def build_engine(name, quiet=False):
 
 # ---------------------------------------------------------------- crash classification
 
-FRAME_RE = re.compile(r"#\d+ 0x[0-9a-f]+ in (.+?) (/[^\s:]+):(\d+)")
+FRAME_RE = re.compile(r"#\d+ (?:0x[0-9a-f]+ in )?(.+?) (/[^\s:]+):(\d+)")
 
 def clean_func(f):
     f = re.sub(r"<[^<>]*>", "", f)
@@ -139,6 +143,14 @@ def repo_frames(text, limit=3):
                 out.append(fn)
             if len(out) >= limit: break
     return out
+
+def crash_excerpt(err, n=1500):
+    """The informative part of a sanitizer / terminate report: from its first marker on."""
+    for marker in ("SIM-TERMINATE", "ERROR: AddressSanitizer", "runtime error:", "WARNING: ThreadSanitizer", "SIM-SEGV"):
+        i = err.find(marker)
+        if i >= 0:
+            return err[max(0, i - 120):i + n]
+    return err[-n:]
 
 def classify_crash(rc, err):
     """Map a dead worker (exit code + stderr) to a stable violation class."""
@@ -300,7 +312,7 @@ class Server:
         err = open(self.errpath, "r", errors="replace").read()
         self.p = None
         cls = classify_crash(rc, err)
-        return {"ok": False, "class": cls, "detail": err[-1500:], "hash": 0, "plan": published or plan, "crash": True, "sub": sub}
+        return {"ok": False, "class": cls, "detail": crash_excerpt(err), "hash": 0, "plan": published or plan, "crash": True, "sub": sub}
 
 def fresh_replay(exe, path, timeout=300):
     """Execute a replay file in a fresh process; returns (class or None, detail)."""
@@ -313,7 +325,7 @@ def fresh_replay(exe, path, timeout=300):
             d = json.loads(line[2:])
             return (None if d["ok"] else d["class"]), d.get("detail", "")
     if r.returncode != 0:
-        return classify_crash(r.returncode, r.stderr), r.stderr[-1500:]
+        return classify_crash(r.returncode, r.stderr), crash_excerpt(r.stderr)
     return None, ""
 
 # ---------------------------------------------------------------- shrinking
@@ -454,6 +466,7 @@ CHECKS = {
     "C05": dict(level="exploration", parts=[("iosim", "c05", 14000, 500000)], cap=(600, 3000), timeout=120),
     "C10": dict(level="exploration", parts=[("iosim", "c10", 1400, 14000), ("stacksim", "stack", 264, 1056)], cap=(600, 3000), timeout=300),
     "C15": dict(level="fault_enumeration", parts=[("patchsim", "c15", 2400, 120000)], cap=(600, 3000), timeout=120),
+    "C20": dict(level="exploration", parts=[("threadsim", "c20", 320, 20000)], cap=(600, 3000), timeout=300),
     "C19": dict(level="fault_enumeration", parts=[("allocsim", "all", 1083 + 49 * 14, 1083 + 49 * 250)], cap=(600, 3000), timeout=120),
 }
 
@@ -508,7 +521,7 @@ def do_check(cid, tier, seed):
                     log("worker failed at startup: " + cls + "\n" + err); raise SystemExit(2)
                 plan = json.loads(subprocess.run([exe, "dump", profile, str(seed), str(idx)], stdout=subprocess.PIPE, text=True).stdout)
                 if sub: plan["sub"] = sub
-                found.append((engine, exe, cls, plan, err[-1500:]))
+                found.append((engine, exe, cls, plan, crash_excerpt(err)))
         stats["worker_restarts"] = stats.get("worker_restarts", 0) + sum(w.restarts for w in ws)
     known = load_known()
     rc = 0
